@@ -43,7 +43,7 @@ fn layouts(rng: &mut Rng, v: &Value) -> String {
 
 fn malformed(rng: &mut Rng, v: &Value) -> String {
     let t = v.to_string();
-    match rng.below(12) {
+    match rng.below(15) {
         0 => String::new(),
         1 => t.chars().take(t.chars().count().saturating_sub(1)).collect(),
         2 => format!("{} x", t),
@@ -55,7 +55,10 @@ fn malformed(rng: &mut Rng, v: &Value) -> String {
         8 => "1x".into(),
         9 => "'a'".into(),
         10 => format!("{}{}{}", "[".repeat(130), 1, "]".repeat(130)),
-        _ => "NaN".into(),
+        11 => "NaN".into(),
+        12 => format!("{}{}", rng.pick(&["\u{a0}", "\u{b}", "\u{c}", "\u{85}", "\u{2028}", "\u{feff}", "\u{3000}", "\u{1680}"]), t),
+        13 => format!("{}{}", t, rng.pick(&["\u{a0}", "\u{b}", "\u{c}", "\u{85}", "\u{2029}", "\u{feff}", "\u{2003}"])),
+        _ => format!(" {}", "-"),
     }
 }
 
@@ -209,6 +212,16 @@ pub fn gen_c19_cases(rng: &mut Rng, count: usize, out_path: &str) {
             }
         }
     }
+    for t in ["\u{20ac}", "\u{e9}", "\u{65e5}", "\u{1f600}"] {
+        for n in [60usize, 85, 100, 128, 150, 257] {
+            let long: String = std::iter::repeat(t).take(n).collect();
+            for deser in ["default", "identity"] {
+                push(json!({"entry": "apply", "value_json": json!({"+": [long.clone()]}).to_string(), "data_json": "null", "data_mode": "omit", "ser": "default", "deser": deser, "tag": "long-error"}), &mut f);
+                push(json!({"entry": "apply", "value_json": json!({"*": [{"var": "x"}, 2]}).to_string(), "data_json": json!({"x": format!("a{}", long)}).to_string(), "data_mode": "given", "ser": "default", "deser": deser, "tag": "long-error"}), &mut f);
+                push(json!({"entry": "apply_serialized", "value_text": json!({"var": [[long.clone()]]}).to_string(), "data_text": Value::Null, "deser": deser, "tag": "long-error"}), &mut f);
+            }
+        }
+    }
     while counter.get() < count {
         let dd = 1 + rng.below(3);
         let mut rule = gens::rand_rule(rng, dd);
@@ -256,4 +269,29 @@ pub fn emit_c19(results_path: &str) -> Vec<Emit> {
         });
     }
     out
+}
+
+/// another property's apply(rule, data) cases, run through the command line
+pub fn cli_from_plain(rng: &mut Rng, cases: &[(Value, Value, String)]) -> Vec<Emit> {
+    let cli = std::env::var("JLH_CLI").expect("JLH_CLI");
+    let mut out = Vec::new();
+    for (rule, data, tag) in cases {
+        let (lt, dt) = (rule.to_string(), data.to_string());
+        if is_flag_like(&lt) || is_flag_like(&dt) || lt.contains('\0') || dt.contains('\0') {
+            continue;
+        }
+        out.push(cli_case(&cli, &format!("cli:{}", tag), &lt, &dt, rng.below(3)).0);
+    }
+    out
+}
+
+/// another property's apply(rule, data) cases, as calls of the Python module
+pub fn py_cases_from_plain(cases: &[(Value, Value, String)], out_path: &str) {
+    let mut f = std::io::BufWriter::new(std::fs::File::create(out_path).unwrap());
+    for (i, (rule, data, tag)) in cases.iter().enumerate() {
+        let c = json!({"i": i, "entry": "apply", "value_json": rule.to_string(), "data_json": data.to_string(),
+                       "data_mode": "given", "ser": "default", "deser": if i % 2 == 0 { "default" } else { "identity" },
+                       "tag": format!("py:{}", tag)});
+        writeln!(f, "{}", c).unwrap();
+    }
 }
